@@ -398,7 +398,6 @@ package evaluator
 // argument binding: every binding goes into the scope handed in (the call's own fresh scope); `\0` is a new
 // array of the (nil-padded) arguments, `\` the first argument, `\_` the keyword-argument object (bound last)
 //@ func evaluator.assignArgsToEnv(env, params, kwargParams, args, kwargs)
-//@   also C14
 //@   requires env != nil && env.Store != nil && kwargParams != nil && kwargs != nil
 //@   ensures  forall i int :: {arg1(i)} 0 <= i && i < ncalls ==> called(i, "object.(*Env).Set") && arg1(i) == env
 //@   ensures  exists i int :: 0 <= i && i < ncalls && arg2(i) == symhash("\\0") && isT(arg3(i), *object.PanArr) && fresh(arg3(i)) && len(as(arg3(i), *object.PanArr).Elems) >= len(args) && (forall j int :: {as(arg3(i), *object.PanArr).Elems[j]} 0 <= j && j < len(args) ==> as(arg3(i), *object.PanArr).Elems[j] == args[j])
